@@ -594,16 +594,87 @@ impl Driver {
                     if bad.is_empty() { String::new() } else { format!(" ITERERR:{}", bad.replace(' ', "_")) },
                 );
                 for e in ents {
-                    let _ = writeln!(
-                        body,
-                        "e {} {} {} {}",
-                        hex(&e.key.user_key),
-                        e.key.seqno,
-                        ty_code(e.key.value_type),
-                        hex(&e.value)
-                    );
+                    if e.key.value_type == ValueType::Indirection {
+                        let ptr = lsm_tree::verif::decode_indirection(&e.value);
+                        let resolved = match any {
+                            AnyTree::Blob(b) => {
+                                match lsm_tree::verif::resolve(b, &sv.version, &e.key.user_key, &e.value) {
+                                    Ok(Some(v)) => hex(&v),
+                                    Ok(None) => "UNRESOLVED".to_string(),
+                                    Err(err) => format!("ERR:{}", format!("{err:?}").replace(' ', "_")),
+                                }
+                            }
+                            AnyTree::Standard(_) => "NOBLOBTREE".to_string(),
+                        };
+                        let (f, o, d, z) = ptr.unwrap_or((u64::MAX, 0, 0, 0));
+                        let _ = writeln!(
+                            body,
+                            "e {} {} I {} {f} {o} {d} {z}",
+                            hex(&e.key.user_key),
+                            e.key.seqno,
+                            resolved
+                        );
+                    } else {
+                        let _ = writeln!(
+                            body,
+                            "e {} {} {} {}",
+                            hex(&e.key.user_key),
+                            e.key.seqno,
+                            ty_code(e.key.value_type),
+                            hex(&e.value)
+                        );
+                    }
+                }
+                if let Ok(l) = lsm_tree::verif::linked_blob_files(table) {
+                    if !l.is_empty() {
+                        let _ = writeln!(
+                            body,
+                            "L {} {}",
+                            table.id(),
+                            l.iter().map(|(a, b, c, d)| format!("{a}:{b}:{c}:{d}")).collect::<Vec<_>>().join(",")
+                        );
+                    }
                 }
             }
+        }
+        // blob files / gc statistics of every retained version; every pointer of the
+        // latest version must resolve against it
+        if let AnyTree::Blob(b) = any {
+            for sv in &hist {
+                let files = lsm_tree::verif::blob_files(&sv.version);
+                let gc = lsm_tree::verif::gc_stats(&sv.version);
+                let j = |v: &Vec<(u64, u64, u64, u64)>| {
+                    if v.is_empty() {
+                        "-".to_string()
+                    } else {
+                        v.iter().map(|(a, b, c, d)| format!("{a}:{b}:{c}:{d}")).collect::<Vec<_>>().join(",")
+                    }
+                };
+                let _ = writeln!(body, "B {} {} {}", sv.version.id(), j(&files), j(&gc));
+            }
+            if let Some(sv) = hist.last() {
+                for table in sv.version.iter_tables() {
+                    for item in table.iter().flatten() {
+                        if item.key.value_type == ValueType::Indirection {
+                            let ok = matches!(
+                                lsm_tree::verif::resolve(b, &sv.version, &item.key.user_key, &item.value),
+                                Ok(Some(_))
+                            );
+                            if !ok {
+                                let _ = writeln!(
+                                    body,
+                                    "RESOLVEFAIL {} {} {} {}",
+                                    sv.version.id(),
+                                    table.id(),
+                                    hex(&item.key.user_key),
+                                    item.key.seqno
+                                );
+                            }
+                        }
+                    }
+                }
+            }
+            let _ = writeln!(body, "BS {} {}", any.stale_blob_bytes(), any.blob_file_count());
         }
         self.out.push_str(&body);
         let (nt, nb, nm) = lsm_tree::verif::counters(tree);
